@@ -409,6 +409,18 @@ func c05GenTimed(r *hx.RNG, engine string, production bool) c05TimedCase {
 			c.Poll = time.Duration(r.Range(2, 20)) * ms
 		}
 	}
+	if !production {
+		// boundary configurations: one probed TTL only, the last TTL an 8-bit counter holds, no send delay
+		switch r.Intn(30) {
+		case 0, 1:
+			c.Max = c.Min
+		case 2, 3:
+			c.Max = 255
+			c.Min = r.Range(246, 255)
+		case 4:
+			c.Delay = 0
+		}
+	}
 	c.Timeout += 250 * time.Nanosecond
 	count := c.Max - c.Min + 1
 	if r.Chance(1, 60) { // invalid parameters
